@@ -532,3 +532,43 @@ def isotxs_chi_matrix_records_are_refused_not_skipped(ichist: int, ichi: int, x0
     assert refused == (ichist > 1 or ichi > 1), "refused iff a chi matrix record is announced"
     if not refused:
         assert st.nwrites() == 3 * 5
+
+
+G_BAND = {"gamiso": [False, True]}
+for _k in range(7):
+    G_BAND["x%d" % _k] = F32
+for _k in range(32):
+    G_BAND["w%d" % _k] = F32
+
+
+@lemma(gen=G_BAND, stubs=STUBS, overrides=OVERRIDES)
+def isotxs_scatter_rows_are_stored_banded_and_reversed(gamiso: bool, x0: float, x1: float, x2: float, x3: float, x4: float, x5: float, x6: float,
+                                                       w0: float, w1: float, w2: float, w3: float, w4: float, w5: float, w6: float, w7: float,
+                                                       w8: float, w9: float, w10: float, w11: float, w12: float, w13: float, w14: float, w15: float,
+                                                       w16: float, w17: float, w18: float, w19: float, w20: float, w21: float, w22: float, w23: float,
+                                                       w24: float, w25: float, w26: float, w27: float, w28: float, w29: float, w30: float, w31: float):
+    """layout of the scattering sub-block on the file (not only that reader and writer agree): for every sink group J in
+    turn, JBAND(J) values, starting with the source group J + IJJ(J) - 1 and descending - read back field by field from
+    the 7D record of a file written by the real code (2 groups, one isotope, one block with up- and down-scatter: IJJ =
+    (2, 1), JBAND = (2, 2)); the 4D record carries IDSCT, LORD, then JBAND and IJJ for every (block, group)."""
+    x = [x0, x1, x2, x3, x4, x5, x6]
+    w = [w0, w1, w2, w3, w4, w5, w6, w7, w8, w9, w10, w11, w12, w13, w14, w15, w16, w17, w18, w19, w20, w21, w22, w23, w24, w25, w26, w27, w28, w29, w30, w31]
+    lib, vals = xs_library(gamiso, 2, 1, 0, 1, 2, [False, False], x, [w, w])
+    st = memstream()
+    xs_io(gamiso, "wb", st, lib).readWrite()
+    read_loca(st, 2, 1, 0)  # leaves the stream behind the 2D record
+    with BinaryRecordReader(st) as r:
+        r.rwList(None, "string", 3, 8)
+        r.rwList(None, "float", 6)
+        r.rwList(None, "int", 11)
+        idsct, lord = r.rwInt(None), r.rwInt(None)
+        jband = r.rwList(None, "int", 2)
+        ijj = r.rwList(None, "int", 2)
+    assert idsct == 100 and lord == 1 and list(jband) == [2, 2] and list(ijj) == [2, 1]
+    with BinaryRecordReader(st) as r:
+        r.rwList(None, "float", 5 * 2)
+    with BinaryRecordReader(st) as r:
+        band = r.rwList(None, "float", 4)
+    m = [[w24, w25], [w26, w27]]  # m[sink][source]
+    assert eq(band[0], m[0][1]) and eq(band[1], m[0][0]), "sink group 1: from group 2 (up-scatter), then in-group"
+    assert eq(band[2], m[1][1]) and eq(band[3], m[1][0]), "sink group 2: in-group, then from group 1 (down-scatter)"
